@@ -456,7 +456,7 @@ func checkC17(c *Ctx) {
 	c.R.Explanation = "Static rules over topic flow: (R1) mounted-topic typestate: every topic or filter that reaches the replicated state, the message log, the distributor or the writer derives only from mount-qualified sources (PrefixMountPoint results, entries read back from the log or the replicated state, inter-node requests, filters remembered at a mounted site, tenant-first audit topics), never from a raw packet field or a raw will; and PrefixMountPoint is never applied to an already mounted name (double prefix); (R2) on delivery the prefix is stripped with the mount point of the very session being written to; (R3) client-identifier lookups always pass the asking session's mount point together with its client id, and the lookup predicate compares both; (R4) the prefix / trim helpers are verbatim concatenation / slicing (no path cleaning)."
 	c.R.NotCovered = "Value-level identity trim(prefix(t)) == t, mount points that contain '/', topics containing the separator in odd places, audit stream contents."
 	c.R.Assume("other nodes and admin RPC clients send mount-qualified names (inter-node contract)")
-	ru1 := c.R.Rule("C17-R1", "mounted-topic typestate: every sink (SubscriptionsState.{Create,CreateFrom,Delete,ByPattern}, TopicsState.{Get,Set,Delete}, Distribute, messageLog.Append, Writer.Send, the publish hand-off) receives a mount-qualified name; PrefixMountPoint receives only raw names", "E3 typestate over provenance with interprocedural parameter meet", 15)
+	ru1 := c.R.Rule("C17-R1", "mounted-topic typestate: every sink (SubscriptionsState.{Create,CreateFrom,Delete,ByPattern}, TopicsState.{Get,Set,Delete}, Distribute, messageLog.Append, Writer.Send, the publish hand-off) receives a mount-qualified name; PrefixMountPoint receives only raw names", "E3 typestate over provenance with interprocedural parameter meet", 8)
 	ma := &mountAnalysis{c: c, memo: map[string]mstate{}, why: map[string]string{}}
 	ma.prefixM = c.cm(ru1, "wasp/sessions", "Session", "PrefixMountPoint")
 	ma.prefixF = c.fo(ru1, "wasp/sessions", "PrefixMountPoint")
@@ -681,5 +681,41 @@ func checkC17(c *Ctx) {
 			}
 		}
 		ru4.Check(bad == "", "verbatim "+name, c.where(h, h), "builtins only", bad)
+	}
+
+	c.ruleGoCapturesLoopVar("C17-R6")
+
+	// R5: a prefixed name is a fresh slice
+	ru5 := c.R.Rule("C17-R5", "the functions of wasp/sessions that return a topic build it in fresh storage: no result is an append onto a slice kept in a struct field or package variable (two results would share that slice's spare capacity, and the second call would overwrite the name the first one returned — a message is then delivered or stored under another topic)", "E3 provenance of returned slices", 2)
+	for _, f := range c.P.ModFuncs() {
+		if f.Parent() != nil || f.Package() == nil || f.Package().Pkg.Path() != c.P.Rel("wasp/sessions") || f.Signature.Results().Len() != 1 {
+			continue
+		}
+		sl, ok := f.Signature.Results().At(0).Type().Underlying().(*types.Slice)
+		if !ok {
+			continue
+		}
+		if b, isB := sl.Elem().Underlying().(*types.Basic); !isB || b.Kind() != types.Byte {
+			continue
+		}
+		c.R.Fn(c.fname(f))
+		bad := ""
+		for _, rv := range returnValues(f) {
+			cv, ok := core.Strip(rv).(*ssa.Call)
+			if !ok || core.CallOf(cv).Builtin() != "append" || len(cv.Call.Args) == 0 {
+				continue
+			}
+			base := conversionsOnly(cv.Call.Args[0])
+			if s2, isSl := base.(*ssa.Slice); isSl {
+				base = conversionsOnly(s2.X)
+			}
+			if ld, isLd := base.(*ssa.UnOp); isLd && ld.Op == token.MUL {
+				switch ld.X.(type) {
+				case *ssa.FieldAddr, *ssa.Global:
+					bad = "the result is append(" + short(core.Term(base), 50) + ", …): successive results share the stored slice's backing array"
+				}
+			}
+		}
+		ru5.Check(bad == "", "storage of the topic returned by "+c.fname(f), c.whereF(f), "fresh storage", bad)
 	}
 }
